@@ -130,16 +130,22 @@ static char *_xml_namespace(xmpp_ctx_t *ctx, const char *nsname)
 static void _set_attributes(xmpp_stanza_t *stanza, const XML_Char **attrs)
 {
     char *attr;
-    int i;
+    int i, pass;
 
     if (!attrs)
         return;
 
-    for (i = 0; attrs[i]; i += 2) {
-        /* namespaced attributes aren't used in xmpp, discard namespace */
-        attr = _xml_name(stanza->ctx, attrs[i]);
-        xmpp_stanza_set_attribute(stanza, attr, attrs[i + 1]);
-        strophe_free(stanza->ctx, attr);
+    /* namespaced attributes aren't used in xmpp, discard namespace.
+     * They are set first, so that they can never replace an attribute
+     * without namespace that has the same local name. */
+    for (pass = 0; pass < 2; pass++) {
+        for (i = 0; attrs[i]; i += 2) {
+            if ((strchr(attrs[i], namespace_sep) == NULL) != pass)
+                continue;
+            attr = _xml_name(stanza->ctx, attrs[i]);
+            xmpp_stanza_set_attribute(stanza, attr, attrs[i + 1]);
+            strophe_free(stanza->ctx, attr);
+        }
     }
 }
 
